@@ -855,6 +855,12 @@ def digest_pairing(ctx, rid):
             # slice is taken before the increment
             if incs:
                 sn, inn = C.stmt_node(ctx, fn, sl), C.stmt_node(ctx, fn, incs[0])
+                # what matters is where the counter is *read*: `start = n * W` computed before `n += 1` may be sliced with later
+                low = sl.slice.lower if isinstance(sl.slice, ast.Slice) else sl.slice
+                if isinstance(low, ast.Name) and not any(isinstance(x, (ast.Name, ast.Attribute)) and norm(x) == cname for x in ast.walk(low)):
+                    defs = [n_ for n_ in own_nodes(fn.node) if isinstance(n_, ast.Assign) and len(n_.targets) == 1 and isinstance(n_.targets[0], ast.Name) and n_.targets[0].id == low.id]
+                    if len(defs) == 1 and any(norm(x) == cname for x in ast.walk(defs[0].value) if isinstance(x, (ast.Name, ast.Attribute))):
+                        sn = C.stmt_node(ctx, fn, defs[0])
                 ctx.decide(rid, fn, sn is not inn and sn not in g.reachable(inn), "the slice is taken before the counter advances",
                            "the counter advances before the slice is taken: every comparison is shifted by one piece", norm(sl) + " :: order")
         # computed side uses the matching hash function
@@ -1171,7 +1177,24 @@ def path_mapping(ctx, rid):
         gl = C.cfg_of(cp)
         head = gl.of[l]
         bs = C.succ_by_label(head, "iter")[0]
-        appends = {gl.of[ctx.prog.enclosing_stmt(n)] for n in ast.walk(l) if isinstance(n, ast.Call) and isinstance(n.func, ast.Attribute) and n.func.attr == "append" and "paths" in norm(n.func.value)}
+        # methods of the checker that record a path (append to self.paths, directly or through one another)
+        rec_v1 = set()
+        grown = True
+        while grown:
+            grown = False
+            for m_ in cp.cls.methods.values():
+                if m_ in rec_v1 or m_ is cp:
+                    continue
+                for n_ in own_nodes(m_.node):
+                    if isinstance(n_, ast.Call) and ((isinstance(n_.func, ast.Attribute) and n_.func.attr == "append" and "paths" in norm(n_.func.value))
+                                                     or any(t in rec_v1 for t in C.targets_of(ctx, m_, n_))):
+                        gm = C.cfg_of(m_)
+                        if gm.dominates(C.stmt_node(ctx, m_, n_), gm.exit):       # records on every call
+                            rec_v1.add(m_)
+                            grown = True
+                            break
+        appends = {gl.of[ctx.prog.enclosing_stmt(n)] for n in ast.walk(l) if isinstance(n, ast.Call) and (
+            (isinstance(n.func, ast.Attribute) and n.func.attr == "append" and "paths" in norm(n.func.value)) or any(t in rec_v1 for t in C.targets_of(ctx, cp, n)))}
         skip = [x for st in l.body for x in ast.walk(st) if isinstance(x, (ast.Continue, ast.Break))]
         plain = norm(l.iter) in ("enumerate(self.info['files'])", "self.info['files']") or not any(isinstance(x, ast.Call) and isinstance(x.func, ast.Name) and x.func.id in ("sorted", "reversed", "filter", "set") for x in ast.walk(l.iter))
         ok = bool(appends) and gl.must_pass(bs, head, appends) and not skip and plain and not any(isinstance(x, ast.Slice) for x in ast.walk(l.iter))
@@ -1182,7 +1205,17 @@ def path_mapping(ctx, rid):
         # files list only consulted for v1
         ln = gl.of[l]
         deps = gl.control_deps(ln)
-        guarded = any(C.test_expr(b) is not None and "meta_version" in norm(C.test_expr(b)) and "== 1" in norm(C.test_expr(b)) and lab == "true" for b, lab in deps)
+        def not_v1(x):
+            """the metafile has a file tree (meta version 2 or hybrid)"""
+            if isinstance(x, ast.Compare) and len(x.ops) == 1 and norm(x.left).endswith("meta_version") and isinstance(x.comparators[0], ast.Constant) and x.comparators[0].value == 1:
+                return {ast.Eq: False, ast.NotEq: True, ast.Gt: True, ast.LtE: False, ast.GtE: True, ast.Lt: False}.get(type(x.ops[0]))
+            if isinstance(x, ast.Compare) and len(x.ops) == 1 and norm(x.left).endswith("meta_version") and isinstance(x.comparators[0], ast.Constant) and x.comparators[0].value == 2:
+                return {ast.GtE: True, ast.Lt: False}.get(type(x.ops[0]))
+            if isinstance(x, ast.Compare) and len(x.ops) == 1 and isinstance(x.ops[0], (ast.In, ast.NotIn)) and const_str(x.left) in ("length",):
+                return isinstance(x.ops[0], ast.NotIn)      # directory torrents: no info.length
+            return None
+        # the loop over info.files is out of reach for a metafile that has a file tree, however the dispatch is written
+        guarded = ln not in C.reach_under(gl, gl.entry, _world_atom(ctx, cp, not_v1))
         ctx.decide(rid, cp, guarded, "info.files is consulted only for v1 metafiles: a hybrid is checked through its file tree, so a missing trailing padding entry cannot matter",
                    "info.files is consulted for hybrid metafiles as well", "files only for v1")
     # ---- v2 / hybrid: every entry of the file tree is recorded or descended into (wherever the walk is implemented)
